@@ -215,10 +215,20 @@ impl Likely {
         None
     }
 
-    pub fn minimize_acceptable(&self, before: &LangId, after: &LangId) -> Result<(), String> {
-        // judged with the primary cascade; where the cascade finds nothing the library may also
-        // have used a fallback, in which case only the algebraic laws (C08) apply
-        let mx = |l: &str, s: Option<&str>, r: Option<&str>| self.primary(l, s, r);
+    /// `lib_max` is the library's own maximisation; it is consulted only where the CLDR cascade finds no
+    /// entry, and its answer is used only if it is one of the UTS #35 fallbacks the C06 statement allows -
+    /// so that a legal fallback (in the input *or in one of the candidate forms*) cannot turn into an alarm here.
+    pub fn minimize_acceptable(&self, before: &LangId, after: &LangId, lib_max: &dyn Fn(&str, Option<&str>, Option<&str>) -> Option<Triple>) -> Result<(), String> {
+        let mx = |l: &str, s: Option<&str>, r: Option<&str>| -> Option<Triple> {
+            let p = self.primary(l, s, r);
+            if p.is_some() {
+                return p;
+            }
+            match lib_max(l, s, r) {
+                Some(a) if self.fallbacks(l, s, r).iter().any(|f| *f == a) => Some(a),
+                _ => None,
+            }
+        };
         let exp = self.ref_minimize(&before.lang, before.script.as_deref(), before.region.as_deref(), &mx);
         let got = (after.lang.clone(), after.script.clone(), after.region.clone());
         let same = (before.lang.clone(), before.script.clone(), before.region.clone());
